@@ -842,7 +842,8 @@ def run_tagtok(o: Outcome, started):
 
 
 def run_demos(o: Outcome):
-    for cfg, inv in (("Demo_Parser_heading.cfg", "AsIsWellFormed"), ("Demo_Parser_preflag.cfg", "AsIsFlagsClean")):
+    for cfg, inv in (("Demo_Parser_heading.cfg", "AsIsWellFormed"), ("Demo_Parser_preflag.cfg", "AsIsFlagsClean"),
+                     ("Demo_Parser_taglaw.cfg", "DemoTagLaw")):
         r = tlc("Gen_Parser", cfg, workers=1, check=False)
         if inv not in r.invariant_violated:
             raise common.TLCError(f"{cfg} did not produce the expected counterexample")
